@@ -7,6 +7,7 @@ package main
 import (
 	"fmt"
 	"go/types"
+	"sort"
 	"strings"
 )
 
@@ -100,6 +101,16 @@ func (u *Unit) fieldAddr(base Term, structT types.Type, idx int) Term {
 	if !ok {
 		kid = len(u.P.fieldKinds) + 1
 		u.P.fieldKinds[fn] = kid
+		// module-private field: unexported field of a struct type declared in this module
+		if st, isSt := structT.Underlying().(*types.Struct); isSt {
+			f := st.Field(idx)
+			if !f.Exported() && f.Pkg() != nil && strings.HasPrefix(f.Pkg().Path(), modulePath) {
+				if u.P.privFa == nil {
+					u.P.privFa = map[string]int{}
+				}
+				u.P.privFa[fn] = kid
+			}
+		}
 	}
 	u.P.mu.Unlock()
 	u.Axiom(Eq(App("abase", SV, t), base))
@@ -322,4 +333,46 @@ func (u *Unit) newMap(st *State, mt *types.Map) Term {
 	st.Mem[kh] = Store(st.Mem[kh], m, emptyHas)
 	st.Mem[kl] = Store(st.Mem[kl], m, IntLit(0))
 	return m
+}
+
+// notPrivate: addr is not inside a module-private field (an unexported field
+// of a struct declared in this module), i.e. code outside the module could
+// write it.
+func (u *Unit) notPrivate(addr Term) Term {
+	u.P.mu.Lock()
+	priv := make(map[string]int, len(u.P.privFa))
+	for k, v := range u.P.privFa {
+		priv[k] = v
+	}
+	u.P.mu.Unlock()
+	cur := addr
+	for {
+		if strings.HasPrefix(cur.Op, "fa_") {
+			if _, ok := priv[cur.Op]; ok {
+				return False
+			}
+			cur = cur.Args[0]
+			continue
+		}
+		if cur.Op == "ia" {
+			cur = cur.Args[0]
+			continue
+		}
+		break
+	}
+	if u.isAllocAtom(cur) {
+		return True
+	}
+	// opaque root: it may itself be (inside) a private field
+	var kinds []int
+	for _, k := range priv {
+		kinds = append(kinds, k)
+	}
+	sort.Ints(kinds)
+	var alts []Term
+	for _, k := range kinds {
+		alts = append(alts, Eq(App("akind", SInt, cur), IntLit(int64(k))))
+		alts = append(alts, Eq(App("akind", SInt, App("abase", SV, cur)), IntLit(int64(k))))
+	}
+	return Not(Or(alts...))
 }
